@@ -346,6 +346,14 @@ fn mixture_events(tr: &mut Tr, args: &Args, rng: &mut Rng) {
                         guesses.push(json!({"guess": "bubble point as initial state", "res": eq2(&r)}));
                         let r = g(|| PhaseEquilibrium::tp_flash(&eos, t, p, &feed, Some(f0), opts(), None));
                         guesses.push(json!({"guess": "own solution as initial state", "res": eq2(&r)}));
+                        // initial states that belong to OTHER conditions (warm start from a neighbouring point)
+                        for (gn, t2, p2) in [("flash at 0.985 T as initial state", t * 0.985, p), ("flash at 1.01 T as initial state", t * 1.01, p),
+                                             ("flash at shifted p as initial state", t, pd + (pb - pd) * (1.0 - w))] {
+                            if let Ok(f2) = g(|| PhaseEquilibrium::tp_flash(&eos, t2, p2, &feed, None, opts(), None)) {
+                                let r = g(|| PhaseEquilibrium::tp_flash(&eos, t, p, &feed, Some(&f2), opts(), None));
+                                guesses.push(json!({"guess": gn, "res": eq2(&r)}));
+                            }
+                        }
                         // C07: converged phases are stable
                         for ph in [f0.vapor(), f0.liquid()] {
                             stability_event(tr, &name, &eos, ph.temperature, ph.density, &ph.molefracs, "stable");
@@ -356,6 +364,21 @@ fn mixture_events(tr: &mut Tr, args: &Args, rng: &mut Rng) {
                     // C07: the feed itself at (T,p) strictly inside the envelope is unstable
                     if let Ok(s) = State::new_npt(&eos, t, p, &feed, DensityInitialization::None) {
                         stability_event(tr, &name, &eos, t, s.density, &z, "unstable");
+                    }
+                }
+                // sweeps of warm-started flashes (PhaseDiagram::lle): in T at fixed p and in p at fixed T
+                {
+                    let p = pd + (pb - pd) * 0.5;
+                    let np = 5;
+                    let (t0, t1) = (t * 0.99, t * 1.01);
+                    if let Ok(d) = g(|| PhaseDiagram::lle(&eos, p, &feed, t0, t1, Some(np))) {
+                        tr.ev(json!({"ev":"FlashSweep","case":name,"vary":"T","fixed":fs(p.to_reduced()),"min":fs(t0.to_reduced()),"max":fs(t1.to_reduced()),"npoints":np,
+                            "feed":fv(feed.to_reduced().iter()),"states":d.states.iter().map(|s| json!({"v": phase(s.vapor()), "l": phase(s.liquid())})).collect::<Vec<_>>()}));
+                    }
+                    let (p0, p1) = (pd + (pb - pd) * 0.3, pd + (pb - pd) * 0.7);
+                    if let Ok(d) = g(|| PhaseDiagram::lle(&eos, t, &feed, p0, p1, Some(np))) {
+                        tr.ev(json!({"ev":"FlashSweep","case":name,"vary":"p","fixed":fs(t.to_reduced()),"min":fs(p0.to_reduced()),"max":fs(p1.to_reduced()),"npoints":np,
+                            "feed":fv(feed.to_reduced().iter()),"states":d.states.iter().map(|s| json!({"v": phase(s.vapor()), "l": phase(s.liquid())})).collect::<Vec<_>>()}));
                     }
                 }
                 for (p, ex) in [(pb * 1.02, "stable"), (pd * 0.98, "stable")] {
